@@ -501,6 +501,48 @@ def c20(tier):
     return rc
 
 
+def c19(tier):
+    out = Outcome("C19", tier, "model_checking")
+    cfgs = ["exec"] if tier == "quick" else ["exec", "exec-rel"]
+    tot, distinct, levels, samples, exhaustive = {}, {}, {}, [], True
+    for cfg in cfgs:
+        exe = prep(cfg, "execmc")
+        args = ["--tier", tier, "--jobs", vbuild.JOBS]
+        if tier != "quick":
+            args += ["--deadline_s", int(DEADLINE_S / len(cfgs))]
+        r = run_harness(exe, args, tmpfile("c19"))
+        out.add_findings(r["findings"], "execmc", cfg, exe=exe)
+        for k, v in r["counters"].items():
+            tot[k] = tot.get(k, 0) + v
+        for k, v in r["distinct"].items():
+            distinct[k] = max(distinct.get(k, 0), v)
+        levels[cfg] = r.get("levels")
+        samples = samples or r["samples"]
+        exhaustive = exhaustive and r["exhaustive"]
+    out.coverage = {
+        "states": max(1, distinct.get("states", 0)), "transitions": tot.get("callbacks", 0),
+        "traces_validated_against_impl": tot.get("executions", 0), "samples": samples[:5], "exhaustive": exhaustive,
+        "levels_completed": levels, "distinct_outcomes": distinct.get("outcomes", 0),
+        "explanation": "deviation-bounded exhaustive exploration of the environment of the real executor (BUILD_EXECUTOR build): six solved plans "
+                       "(two state-variable atoms meeting at a time point; an impulse coinciding with an interval start; a rule creating a "
+                       "predecessor; a disjunction; fractional times 21/4..25/4; an atom with constant times) x units_per_tick in {1, 1/2}. A "
+                       "recording executor_listener is the environment: at every starting()/ending() callback the explorer picks from "
+                       "{no request, dont_start_yet / dont_end_yet for one notified atom with delay 1 or 2}; before every tick() from {nothing, "
+                       "failure({a}) for one running atom}. Default = no request; ALL executions with at most 2 (thorough 3) non-default answers "
+                       "are run to a fixed horizon, each on a fresh solver+executor under the deterministic allocator. Monitors: time advances by "
+                       "exactly units_per_tick per tick(); every atom is started at most once and ended at most once, start before end; an atom "
+                       "is never started/ended before its planned time, nor started in the tick() call that was asked to delay it; after every "
+                       "tick and failure the adapted plan is well-formed (origin <= start <= end <= horizon, duration = end - start, no overlap on "
+                       "a state variable) and the start (end) of every started (ended) atom is unchanged; at the horizon every active atom "
+                       "whose time has come has been started and ended exactly once; execution_exception is a legitimate terminal outcome, "
+                       "any other abnormal termination is a violation. states = distinct (outcome, time, started/ended sets with values); "
+                       "transitions = listener callbacks delivered; traces = executions.",
+    }
+    out.assumptions = ["the solver's own plan validity under adaptation is judged by the C04/C06-style monitors implemented in the harness",
+                       "delays of 1 or 2 plan units; at most one request per callback"]
+    return out.finish()
+
+
 def c16(tier):
     out = Outcome("C16", tier, "exploration")
     parts = [("tokens/rel", "rel", "lexmc", ["--mode", "tokens"]), ("parse/rel", "rel", "lexmc", ["--mode", "parse"]),
@@ -565,7 +607,7 @@ def c18(tier):
 
 
 # ------------------------------------------------------------------------------------------------
-PROPS = {"C20": c20, "C17": c17, "C03": c03, "C04": c04, "C05": c05, "C06": c06, "C01": c01, "C02": c02, "C16": c16, "C18": c18, "C15": c15, "C13": c13, "C11": lambda tier: relmc_check("C11", tier), "C12": lambda tier: relmc_check("C12", tier)}
+PROPS = {"C19": c19, "C20": c20, "C17": c17, "C03": c03, "C04": c04, "C05": c05, "C06": c06, "C01": c01, "C02": c02, "C16": c16, "C18": c18, "C15": c15, "C13": c13, "C11": lambda tier: relmc_check("C11", tier), "C12": lambda tier: relmc_check("C12", tier)}
 for _p in ("C07", "C08", "C09", "C10", "C14"):
     PROPS[_p] = (lambda pid: (lambda tier: netmc_check(pid, tier)))(_p)
 
@@ -576,8 +618,9 @@ def setup():
         vbuild.ensure_tree(cfg, quiet=False)
     for cfg in ["rel", "dbg-hadd-ci"]:
         vbuild.ensure_harness(cfg, "progrun", quiet=False)
-    for cfg in ["par", "par-tsan"]:
+    for cfg in ["par", "par-tsan", "exec"]:
         vbuild.ensure_tree(cfg, quiet=False)
+    vbuild.ensure_harness("exec", "execmc", quiet=False)
     vbuild.ensure_harness("dbgn", "seqref", quiet=False)
     vbuild.ensure_harness("par", "schedmc", extra_flags=["-rdynamic", "-ldl"], quiet=False)
     vbuild.ensure_harness("par-tsan", "racefree", quiet=False)
